@@ -22,6 +22,10 @@ type c19node struct {
 }
 
 func newC19(indirect int, tcpMode string, awareMax int) (*c19node, error) {
+	return newC19x(indirect, tcpMode, awareMax, time.Second, 500*time.Millisecond)
+}
+
+func newC19x(indirect int, tcpMode string, awareMax int, interval, timeout time.Duration) (*c19node, error) {
 	tr := newCapTransport()
 	conf := ml.DefaultLANConfig()
 	conf.Name = "S"
@@ -29,8 +33,8 @@ func newC19(indirect int, tcpMode string, awareMax int) (*c19node, error) {
 	conf.AdvertiseAddr = "10.0.0.9"
 	conf.AdvertisePort = 7946
 	conf.BindPort = 7946
-	conf.ProbeInterval = time.Second
-	conf.ProbeTimeout = 500 * time.Millisecond
+	conf.ProbeInterval = interval
+	conf.ProbeTimeout = timeout
 	conf.GossipInterval = 0
 	conf.PushPullInterval = 0
 	conf.IndirectChecks = indirect
@@ -306,6 +310,83 @@ func c19Fresh(r *rng, id string) {
 	emit("C19 fresh id=%s workers=%d per=%d distinct=%d dups=%d first=%d", id, workers, per, len(all), dups, first)
 }
 
+// c19Ping: the Ping API (one direct ping, answered only by an acknowledgement with its own sequence number
+// before the probe timeout - or before the pending record expires, whichever comes first), for probe
+// intervals below, at and above the probe timeout.
+func c19Ping(r *rng, id string) {
+	interval := []time.Duration{40 * time.Millisecond, 400 * time.Millisecond, time.Second, 100 * time.Millisecond}[r.intn(4)]
+	timeout := []time.Duration{400 * time.Millisecond, 100 * time.Millisecond, 500 * time.Millisecond}[r.intn(3)]
+	n, err := newC19x(1, "off", 8, interval, timeout)
+	if err != nil {
+		return
+	}
+	m := n.m
+	ml.VerifResetBroadcasts(m)
+	n.tr.take()
+	t0 := time.Now()
+	res := "?"
+	done := make(chan struct{})
+	go func() {
+		_, err := m.Ping("T", &net.UDPAddr{IP: net.IPv4(10, 0, 0, 1), Port: 7946})
+		if err != nil {
+			res = "err"
+		} else {
+			res = "ok"
+		}
+		close(done)
+	}()
+	synctest.Wait()
+	seq := uint32(0)
+	for _, p := range n.tr.take() {
+		if len(p) > 1 && p[0] == 0 {
+			seq, _, _ = ml.VerifDecodePing(p[1:])
+		}
+	}
+	limit := interval
+	if timeout < limit {
+		limit = timeout
+	}
+	var toks []string
+	nev := r.intn(3)
+	var ts []time.Duration
+	for i := 0; i < nev; i++ {
+		switch r.intn(3) {
+		case 0:
+			ts = append(ts, time.Duration(1+r.intn(int(limit/time.Millisecond)-1))*time.Millisecond-500*time.Microsecond)
+		case 1:
+			ts = append(ts, limit+time.Duration(1+r.intn(50))*time.Millisecond)
+		default:
+			ts = append(ts, time.Duration(1+r.intn(1200))*time.Millisecond+300*time.Microsecond)
+		}
+	}
+	sort.Slice(ts, func(i, j int) bool { return ts[i] < ts[j] })
+	for i, t := range ts {
+		if i > 0 && t == ts[i-1] {
+			continue
+		}
+		time.Sleep(time.Until(t0.Add(t)))
+		mine := r.chance(2, 3)
+		sq := seq
+		if !mine {
+			sq = seq + 500
+		}
+		ack, _ := ml.VerifEncode(2, sq, "", nil)
+		ml.VerifIngestPacket(m, ack, fromAddr, time.Now())
+		synctest.Wait()
+		toks = append(toks, fmt.Sprintf("%d:ack:%d", int64(t), b2i(mine)))
+	}
+	<-done
+	took := time.Since(t0)
+	time.Sleep(3 * time.Second)
+	synctest.Wait()
+	tk := "-"
+	if len(toks) > 0 {
+		tk = strings.Join(toks, ";")
+	}
+	emit("C19 ping id=%s interval=%d timeout=%d evs=%s res=%s took=%d handlers=%d", id, int64(interval), int64(timeout), tk, res, int64(took), ml.VerifNumAckHandlers(m))
+	m.Shutdown()
+}
+
 func c19Relay(r *rng, id string) {
 	n, err := newC19(3, "off", 8)
 	if err != nil {
@@ -441,11 +522,25 @@ func c19Table(r *rng, id string) {
 		case k < 5:
 			sq := pick()
 			tok = fmt.Sprintf("ack:%d", sq)
-			ml.VerifInvokeAck(m, sq)
+			func() {
+				defer func() {
+					if rec := recover(); rec != nil {
+						tok += "!panic"
+					}
+				}()
+				ml.VerifInvokeAck(m, sq)
+			}()
 		case k < 7:
 			sq := pick()
 			tok = fmt.Sprintf("nack:%d", sq)
-			ml.VerifInvokeNack(m, sq)
+			func() {
+				defer func() {
+					if rec := recover(); rec != nil {
+						tok += "!panic"
+					}
+				}()
+				ml.VerifInvokeNack(m, sq)
+			}()
 		default:
 			d := time.Duration(50*(1+r.intn(12))) * time.Millisecond
 			tok = fmt.Sprintf("tick:%d", d.Milliseconds())
@@ -501,6 +596,9 @@ func TestC19(t *testing.T) {
 		synctest.Test(t, func(t *testing.T) { c19SendErr(r, id) })
 	})
 	forCases(n/300+3, 196, "f", func(i int, r *rng, id string) { c19Fresh(r, id) })
+	forCases(n/8, 197, "g", func(i int, r *rng, id string) {
+		synctest.Test(t, func(t *testing.T) { c19Ping(r, id) })
+	})
 	forCases(n/2, 192, "r", func(i int, r *rng, id string) {
 		synctest.Test(t, func(t *testing.T) { c19Relay(r, id) })
 	})
